@@ -103,7 +103,7 @@ func renderInto(reuse *core, u *Universe, spec *Node, k knobs, f Fault, failAt, 
 	if w == nil {
 		w = &core{}
 	}
-	*w = core{fault: f, sticky: k.Sticky, park: park}
+	*w = core{fault: f, sticky: k.Sticky, park: park, limit: 4 << 20}
 	c := env.Build(spec)
 	var err error
 	if k.OwnBuf {
